@@ -8,21 +8,6 @@ import (
 	"github.com/gobwas/ws"
 )
 
-// vHeaderBroken is the RFC 6455 framing-rule oracle of C03 (which rule set a header breaks
-// in a given endpoint state).
-func vHeaderBroken(fin bool, rsv, op byte, masked bool, length uint64, server, client, ext, frag bool) bool {
-	reserved := vOr(vIn(op, 3, 7), vIn(op, 0xb, 0xf))
-	control := op&8 != 0
-	r := vOr(reserved, vAnd(control, length > 125))
-	r = vOr(r, vAnd(control, !fin))
-	r = vOr(r, vAnd(rsv != 0, !ext))
-	r = vOr(r, vAnd(server, !masked))
-	r = vOr(r, vAnd(client, masked))
-	r = vOr(r, vAnd(frag, vAnd(!control, op != 0)))
-	r = vOr(r, vAnd(!frag, op == 0))
-	return r
-}
-
 // C05_reject_step (inductive step): from an arbitrary reader state between frames, for an
 // ARBITRARY next header: protocol error iff the oracle rejects, size-limit error iff valid and
 // too large; in both cases not one payload byte is consumed and the state is unchanged.
